@@ -78,7 +78,7 @@ var forgeTable = map[string][][2]string{
 	"sjresp": {{"create", "missing"}, {"create", "unknownver"}, {"create", "badsig"}, {"st", "dup"}, {"st", "nokey"}, {"jrsig", "bad"},
 		{"ban", "yes"}, {"jret", "absent"}, {"jret", "notjoin"}},
 	"mlreq": {{"origin", "X"}, {"usrv", "X"}, {"room", "other"}},
-	"invreq": {{"room", "other"}, {"e_type", "other"}, {"e_mship", "join"}, {"e_skey", "otherlocal"}, {"e_skey", "sender"},
+	"invreq": {{"room", "other"}, {"e_type", "other"}, {"e_mship", "join"}, {"e_skey", "otherlocal"}, {"e_skey", "sender"}, {"e_ssrv", "R"},
 		{"e_room", "other"}, {"e_sig", "none"}, {"e_sig", "wrongkey"}, {"e_sig", "other"}},
 }
 
